@@ -504,10 +504,16 @@ func arraysRun[T num, A arr[T, A]](k kit[T, A], rc *RunCtx, o *Outcome) {
 			sub := make([]int, rank)
 			step := make([]int, rank)
 			copyFrom := w.Bool(35)
+			smallerSource := w.Bool(40)
 			for d := 0; d < rank; d++ {
 				step[d] = 1
 				if copyFrom {
+					// CopyFrom places the source at the origin; a source smaller than the
+					// destination (in any dimension) is a block copy
 					sub[d] = rv.shape[d]
+					if smallerSource && w.Bool(50) {
+						sub[d] = 1 + w.Choose(rv.shape[d])
+					}
 					continue
 				}
 				if w.Bool(30) {
@@ -741,7 +747,9 @@ func arraysRun[T num, A arr[T, A]](k kit[T, A], rc *RunCtx, o *Outcome) {
 		case kind == 18: // integer index helpers against their arithmetic definitions
 			helperChecks(x, w)
 		default:
-			if len(roots) < 3 && w.Bool(30) {
+			if w.Bool(50) {
+				extremeMinMax(k, x, w)
+			} else if len(roots) < 3 && w.Bool(30) {
 				newRoot()
 			}
 		}
@@ -918,4 +926,62 @@ func singleLongDim(shape []int) int {
 		}
 	}
 	return big
+}
+
+// extremeMinMax: Maximum/Minimum must compare in the element type itself (values that differ
+// only beyond float64's 53-bit mantissa, the type's extremes), on both back-ends.
+func extremeMinMax[T num, A arr[T, A]](k kit[T, A], x *arrCtx, w *simrt.Tape) {
+	var cands []T
+	var zero T
+	one := zero + 1
+	// largest and smallest representable values, found by doubling (no reflection needed)
+	hi := one
+	for hi*2 > hi && hi*2/2 == hi {
+		hi *= 2
+	}
+	cands = append(cands, zero, one, hi, hi-1, hi-2, hi/2+1, hi/2, hi/4+3)
+	neg := zero - 1
+	if neg < zero {
+		cands = append(cands, neg, zero-hi, zero-hi+1, zero-hi/2-1)
+	}
+	big53 := one
+	for i := 0; i < 53; i++ {
+		big53 *= 2
+	}
+	if big53/2 > 0 && big53 > 0 && big53+1 != big53 {
+		cands = append(cands, big53, big53+1, big53+2, big53-1)
+	}
+	n := 2 + w.Choose(6)
+	vals := make([]T, n)
+	for i := range vals {
+		vals[i] = cands[w.Choose(len(cands))]
+	}
+	mx, mn := vals[0], vals[0]
+	for _, v := range vals {
+		if v > mx {
+			mx = v
+		}
+		if v < mn {
+			mn = v
+		}
+	}
+	what := fmt.Sprintf("Maximum/Minimum of %v (%s)", vals, k.name)
+	x.log = append(x.log, what)
+	g := k.fromSlice(append([]T(nil), vals...), []int{n})
+	if g.Maximum() != mx || g.Minimum() != mn {
+		x.fail("bulk", "minmax-differs", "go/minmax", "%s on the Go-backed array = %v/%v, comparing in the element type gives %v/%v", what, g.Maximum(), g.Minimum(), mx, mn)
+		return
+	}
+	if k.cSize == k.elemSize {
+		cb := allocC(n*k.cSize, true, false)
+		c := k.newC(cb.ptr, []int{n})
+		for i, v := range vals {
+			c.Set([]int{i}, v)
+		}
+		if c.Maximum() != mx || c.Minimum() != mn {
+			x.fail("cdiff", "minmax-differs", "c/minmax", "%s on the C-backed array = %v/%v, the Go-backed array gives %v/%v", what, c.Maximum(), c.Minimum(), mx, mn)
+			return
+		}
+	}
+	x.o.probe("minmax_extreme_values")
 }
